@@ -78,6 +78,7 @@ class Slot:
         self.kind = "absent"
         self.text = None
         self.linked = False  # the grammar is a symbolic link to the shared file shared/common.ebnf
+        self.valid_history = []  # valid texts the slot has had, oldest first (an edit can go back to the one before)
 
 
 def gen_history(seed, i, valid, tier):
@@ -114,7 +115,10 @@ def gen_history(seed, i, valid, tier):
     n = rng.range(3, 14)
     for _ in range(n):
         k = rng.weighted([("edit_valid", 22), ("edit_bad", 14), ("prefix", 18), ("delete", 8), ("damage", 5), ("run", 36)])
-        if k == "edit_valid" and rng.coin(120):
+        if k == "edit_valid" and rng.coin(200):
+            # back to the text the slot had before its latest valid text (A -> B -> A: an edit that is taken back)
+            ops.append(["edit", rng.below(len(slots)), "revert", 0, rng.weighted([("now", 70), ("old", 20), ("same_as_destination", 10)])])
+        elif k == "edit_valid" and rng.coin(120):
             # the grammar becomes a symbolic link to a file shared with other slots; editing it through one edits all
             ops.append(["edit", rng.below(len(slots)), "shared", rng.below(len(valid)), rng.weighted([("now", 60), ("old", 25), ("same_as_destination", 15)])])
         elif k == "edit_valid":
@@ -140,6 +144,17 @@ def gen_history(seed, i, valid, tier):
             alt = rng.choice([["--ctx", "crate::Other"], ["--derives", "Debug,Clone"], ["--derives", "Debug,Clone,PartialEq"], ["--derives", "Debug,Clone", "--ctx", "crate::Ctx"], []])
             if alt != settings_of(cfg):
                 ops.append(["run2", rng.below(len(slots)), alt])
+    if len(slots) >= 2 and rng.coin(250):
+        # a failed run in the middle that got part of the way (one grammar changed and valid, another one broken), after
+        # which the change is taken back and the broken grammar repaired: whatever the failed run left behind must not
+        # reach the destinations of the run that follows
+        xs = rng.sample(list(range(len(slots))), 2)
+        ops.append(["run"])
+        ops.append(["edit", xs[0], "valid", rng.below(len(valid)), "now"])
+        ops.append(["edit", xs[1], rng.choice(["syntax", "semantic", "utf8"]), rng.below(8), "now"])
+        ops.append(["run"])
+        ops.append(["edit", xs[0], "revert", 0, "now"])
+        ops.append(["edit", xs[1], rng.choice(["revert", "valid"]), rng.below(len(valid)), "now"])
     ops.append(["run"])
     cfg["ops"] = ops
     return cfg
@@ -288,9 +303,17 @@ def execute_history(cfg, d, valid, scratch, stats=None):
             kind = op[2]
             if one_process and kind == "eio":
                 kind = "utf8"  # injected I/O errors are per process; not used inside a one-process history
-            sl.kind = kind
             sl.linked = False
-            if kind == "shared":
+            if kind == "revert":
+                kind = "valid"
+                sl.kind = kind
+                hist = sl.valid_history
+                sl.text = hist[-2] if len(hist) >= 2 else (hist[-1] if hist else valid[op[3] % len(valid)])
+                sl.valid_history = hist + [sl.text]
+            sl.kind = kind
+            if kind == "valid" and op[2] == "revert":
+                pass
+            elif kind == "shared":
                 sl.kind = kind = "valid"
                 sl.linked = True
                 sl.text = valid[op[3] % len(valid)]
@@ -299,6 +322,7 @@ def execute_history(cfg, d, valid, scratch, stats=None):
                         other.text = sl.text
             elif kind == "valid":
                 sl.text = valid[op[3] % len(valid)]
+                sl.valid_history.append(sl.text)
             elif kind == "syntax":
                 pool_syn = INVALID_SYNTAX + tricky_invalid()
                 sl.text = pool_syn[op[3] % len(pool_syn)]
